@@ -304,3 +304,36 @@ func IsConversion(info *types.Info, call *ast.CallExpr) bool {
 	tv, ok := info.Types[call.Fun]
 	return ok && tv.IsType()
 }
+
+// CommandFunc resolves the function registered for a CLI command
+// (flags.Register("name", help, F) in cmd/gts) to its declaration. The command
+// name is what users type; the identifier of F is free to change.
+func (p *Prog) CommandFunc(cmd string) *ast.FuncDecl {
+	pk := p.Pkgs[PkgMain]
+	if pk == nil {
+		return nil
+	}
+	var out *ast.FuncDecl
+	for _, f := range pk.Syntax {
+		ast.Inspect(f, func(n ast.Node) bool {
+			c, ok := n.(*ast.CallExpr)
+			if !ok || len(c.Args) != 3 {
+				return true
+			}
+			sel, ok := c.Fun.(*ast.SelectorExpr)
+			if !ok || sel.Sel.Name != "Register" {
+				return true
+			}
+			if s, ok := ConstString(pk.TypesInfo, c.Args[0]); !ok || s != cmd {
+				return true
+			}
+			if id, ok := ast.Unparen(c.Args[2]).(*ast.Ident); ok {
+				if fn, ok := pk.TypesInfo.Uses[id].(*types.Func); ok {
+					out = p.FuncDecl(PkgMain, fn.Name())
+				}
+			}
+			return true
+		})
+	}
+	return out
+}
